@@ -224,7 +224,7 @@ def length_source(fx, s, atom):
             for i, a in enumerate(c["args"]):
                 if pd.expr(a) == ("closure", s.key):
                     if c.get("fname") == "publish": return ("publish", 1)
-                    if c.get("fname") in ("map", "map_or", "and_then", "map_or_else"):
+                    if c.get("fname") in ("map", "map_or", "and_then", "map_or_else", "is_some_and", "is_ok_and", "is_none_or", "inspect"):
                         rc = show(pd.expr(c["args"][0]))
                         if "try_publish_leaked_internal_index" in rc: return ("post", 1)
                         if any(p + "@" in rc for p in ("publish_movable", "publish_leaked_ref", "publish_leaked_id")): return ("publish", 1)
@@ -346,7 +346,7 @@ def check_wake_sites(ctx):
                 if any(pd.expr(a) == ("closure", s.key) for a in c["args"]):
                     if c.get("fname") == "publish":
                         ok = _container_calls_back_after_publication(ctx, fx, c); how = "length callback: the container invokes it after its own publication"
-                    elif c.get("fname") in ("map", "map_or", "and_then", "map_or_else"):
+                    elif c.get("fname") in ("map", "map_or", "and_then", "map_or_else", "is_some_and", "is_ok_and", "is_none_or", "inspect"):
                         ok = any(p + "@" in show(pd.expr(c["args"][0])) for p in PUB); how = "runs on the Some(len) answer of the publication"
         ctx.ob("R04.3", f"{tag}|after-publication", ok, s.body.loc(s.b), how if ok else "this wake is not ordered after the publication of its path: a consumer woken early finds nothing, parks, and the event published afterwards wakes nobody")
         # ---------------- R04.4 / R04.5
